@@ -17,6 +17,18 @@ pub enum PeerEnd {
     Abort,
     Shutdown,
     ShutdownAck,
+    /// the peer (or the path to it) vanishes: nothing is delivered in either direction any more
+    Silent,
+}
+
+/// The victim's application load: how many channels have a sender that keeps the window full, and
+/// whether the peer's datagrams are withheld for 400 ms (virtual) before the terminating chunk so
+/// that every sender is parked on flow control when the association ends.
+#[derive(Clone, Copy, Debug, PartialEq, Eq)]
+pub struct Load {
+    pub small_window: bool,
+    pub senders: usize,
+    pub stall: bool,
 }
 
 #[derive(Clone, Debug, Default)]
@@ -30,6 +42,8 @@ pub struct Obs {
     pub send_after_returned: bool,
     pub send_after_ok: bool,
     pub blocked_sender_returned: bool,
+    pub senders_parked_at_event: usize,
+    pub senders_returned: usize,
     pub runner_finished: bool,
     pub panic: Option<String>,
 }
@@ -58,7 +72,8 @@ fn seal(crypto: &rustrtc::transports::dtls::SessionCrypto, sender: Side, seq: u6
 
 /// Run the association; after `k` post-handshake (application) datagrams have been delivered, the
 /// peer of `victim` sends the terminating chunk. `k = usize::MAX` = fault-free (measures K).
-pub fn run(ev: PeerEnd, victim: Side, k: usize, small_window: bool, seed: u64) -> Option<Obs> {
+pub fn run(ev: PeerEnd, victim: Side, k: usize, load: Load, seed: u64) -> Option<Obs> {
+    let small_window = load.small_window;
     sim::run_with_watchdog(seed, Duration::from_secs(15), move || {
         Box::pin(async move {
             crate::LAST_PANIC_LOC.with(|l| l.borrow_mut().clear());
@@ -69,7 +84,7 @@ pub fn run(ev: PeerEnd, victim: Side, k: usize, small_window: bool, seed: u64) -
                 rtc.sctp_receive_window = 4096;
                 rtc.sctp_max_buffered_amount = 8192;
             }
-            let chan = vec![(0u16, DataChannelConfig { ordered: true, negotiated: Some(0), ..Default::default() })];
+            let chan: Vec<(u16, DataChannelConfig)> = (0..load.senders.max(1) as u16).map(|i| (i, DataChannelConfig { ordered: true, negotiated: Some(i), ..Default::default() })).collect();
             let cfg = EndCfg { with_sctp: true, channels: chan, expected_fingerprint: None, rtc };
             let mut a = sim::mk_end(Side::A, certs.a.clone(), net_tx.clone(), &cfg).await;
             let mut b = sim::mk_end(Side::B, certs.b.clone(), net_tx.clone(), &cfg).await;
@@ -80,20 +95,25 @@ pub fn run(ev: PeerEnd, victim: Side, k: usize, small_window: bool, seed: u64) -
             let p: &End = if victim == Side::A { &b } else { &a };
             // the victim's application: a sender that keeps the window full (blocks in send_data when
             // small_window) and the event collector
-            let vsctp = v.sctp.clone().unwrap();
-            let sender_done = std::sync::Arc::new(std::sync::atomic::AtomicBool::new(false));
-            let sd = sender_done.clone();
             let n_msgs = if small_window { 40 } else { 3 };
-            let sender = tokio::spawn(async move {
-                for i in 0..n_msgs {
-                    let payload = vec![i as u8; if small_window { 1100 } else { 20 }];
-                    if vsctp.send_data(0, &payload).await.is_err() {
-                        break;
+            let in_call = std::sync::Arc::new(std::sync::atomic::AtomicUsize::new(0));
+            let mut senders = vec![];
+            for ch in 0..load.senders.max(1) as u16 {
+                let vsctp = v.sctp.clone().unwrap();
+                let in_call = in_call.clone();
+                senders.push(tokio::spawn(async move {
+                    for i in 0..n_msgs {
+                        let payload = vec![i as u8; if small_window { 1100 } else { 20 }];
+                        in_call.fetch_add(1, std::sync::atomic::Ordering::SeqCst);
+                        let r = vsctp.send_data(ch, &payload).await;
+                        in_call.fetch_sub(1, std::sync::atomic::Ordering::SeqCst);
+                        if r.is_err() {
+                            break;
+                        }
+                        tokio::time::sleep(Duration::from_millis(5)).await;
                     }
-                    tokio::time::sleep(Duration::from_millis(5)).await;
-                }
-                sd.store(true, std::sync::atomic::Ordering::SeqCst);
-            });
+                }));
+            }
             let psctp = p.sctp.clone().unwrap();
             let peer_sender = tokio::spawn(async move {
                 for i in 0..3u8 {
@@ -127,8 +147,9 @@ pub fn run(ev: PeerEnd, victim: Side, k: usize, small_window: bool, seed: u64) -
             let mut peer_gone = false;
             let mut complete_sent = false;
             let start = tokio::time::Instant::now();
-            let horizon = if ev == PeerEnd::Shutdown { Duration::from_secs(420) } else { Duration::from_secs(8) };
+            let horizon = if matches!(ev, PeerEnd::Shutdown | PeerEnd::Silent) { Duration::from_secs(420) } else { Duration::from_secs(8) };
             let mut injected_at = None;
+            let mut stall_until: Option<tokio::time::Instant> = None;
             loop {
                 if (tokio::time::Instant::now() - start) > horizon {
                     break;
@@ -136,20 +157,28 @@ pub fn run(ev: PeerEnd, victim: Side, k: usize, small_window: bool, seed: u64) -
                 let both = sim::crypto_of(&a).is_some() && sim::crypto_of(&b).is_some();
                 // the peer can only end an association that exists: wait for the victim's Open
                 let open = events.lock().0 > 0;
-                if both && open && !injected && delivered_app >= k {
+                if both && open && !injected && delivered_app >= k && load.stall && stall_until.is_none() {
+                    stall_until = Some(tokio::time::Instant::now() + Duration::from_millis(400));
+                }
+                let stall_over = !load.stall || stall_until.map_or(false, |t| tokio::time::Instant::now() >= t);
+                if both && open && !injected && delivered_app >= k && stall_over {
                     injected = true;
+                    obs.senders_parked_at_event = in_call.load(std::sync::atomic::Ordering::SeqCst);
                     obs.injected = true;
                     let c = sim::crypto_of(&a).unwrap();
                     let chunk = match ev {
                         PeerEnd::Abort => wire::raw_chunk(6, 0, &[]),
                         PeerEnd::Shutdown => wire::raw_chunk(7, 0, &0u32.to_be_bytes()),
                         PeerEnd::ShutdownAck => wire::raw_chunk(8, 0, &[]),
+                        PeerEnd::Silent => vec![],
                     };
-                    let pkt = wire::build_sctp(5000, 5000, 0, &[chunk]);
-                    let data = seal(&c, victim.other(), 0x9000, &pkt);
-                    sim::deliver(&a, &b, &Dgram { data, from: paddr, to: vaddr }, &mut buf).await;
+                    if ev != PeerEnd::Silent {
+                        let pkt = wire::build_sctp(5000, 5000, 0, &[chunk]);
+                        let data = seal(&c, victim.other(), 0x9000, &pkt);
+                        sim::deliver(&a, &b, &Dgram { data, from: paddr, to: vaddr }, &mut buf).await;
+                    }
                     injected_at = Some(tokio::time::Instant::now());
-                    if ev == PeerEnd::Shutdown {
+                    if matches!(ev, PeerEnd::Shutdown | PeerEnd::Silent) {
                         peer_gone = true;
                     }
                 }
@@ -159,7 +188,7 @@ pub fn run(ev: PeerEnd, victim: Side, k: usize, small_window: bool, seed: u64) -
                         if peer_gone {
                             // the first thing the victim sends after SHUTDOWN is its SHUTDOWN-ACK:
                             // the departing peer answers SHUTDOWN-COMPLETE, then silence both ways
-                            if d.from == vaddr && !complete_sent {
+                            if ev == PeerEnd::Shutdown && d.from == vaddr && !complete_sent {
                                 complete_sent = true;
                                 let c = sim::crypto_of(&a).unwrap();
                                 let pkt = wire::build_sctp(5000, 5000, 0, &[wire::raw_chunk(14, 0, &[])]);
@@ -167,6 +196,9 @@ pub fn run(ev: PeerEnd, victim: Side, k: usize, small_window: bool, seed: u64) -
                                 sim::deliver(&a, &b, &Dgram { data, from: paddr, to: vaddr }, &mut buf).await;
                             }
                             continue;
+                        }
+                        if stall_until.is_some() && !injected && d.from == paddr {
+                            continue; // the peer's acknowledgements are withheld: the victim's senders park
                         }
                         sim::deliver(&a, &b, &d, &mut buf).await;
                         if is_app {
@@ -183,7 +215,7 @@ pub fn run(ev: PeerEnd, victim: Side, k: usize, small_window: bool, seed: u64) -
                             if closed && (tokio::time::Instant::now() - t0) > Duration::from_millis(500) {
                                 break;
                             }
-                            if ev != PeerEnd::Shutdown && (tokio::time::Instant::now() - t0) > Duration::from_millis(2500) {
+                            if !matches!(ev, PeerEnd::Shutdown | PeerEnd::Silent) && (tokio::time::Instant::now() - t0) > Duration::from_millis(2500) {
                                 break;
                             }
                         }
@@ -204,14 +236,17 @@ pub fn run(ev: PeerEnd, victim: Side, k: usize, small_window: bool, seed: u64) -
                 Err(_) => obs.send_after_returned = false,
             }
             tokio::time::sleep(Duration::from_millis(500)).await;
-            obs.blocked_sender_returned = sender_done.load(std::sync::atomic::Ordering::SeqCst) || sender.is_finished();
+            obs.senders_returned = senders.iter().filter(|h| h.is_finished()).count();
+            obs.blocked_sender_returned = obs.senders_returned == senders.len();
             let e = events.lock().clone();
             obs.opens = e.0;
             obs.closes = e.1;
             obs.ended = e.2;
             // tasks[1] is the SCTP runner
             obs.runner_finished = v.tasks.get(1).map(|h| h.is_finished()).unwrap_or(false);
-            sender.abort();
+            for h in &senders {
+                h.abort();
+            }
             peer_sender.abort();
             collector.abort();
             let loc = crate::LAST_PANIC_LOC.with(|l| l.borrow().clone());
@@ -244,7 +279,7 @@ fn judge(ev: PeerEnd, o: &Obs) -> Vec<(String, String)> {
         out.push(("hang:send_data_after_close".into(), "send_data() did not return within 2 s (virtual)".into()));
     }
     if !o.blocked_sender_returned {
-        out.push(("hang:blocked_sender".into(), "a sender blocked on flow control never returned".into()));
+        out.push(("hang:blocked_sender".into(), format!("{} sender(s) were inside send_data() when the association ended; only {} sender task(s) ever returned", o.senders_parked_at_event, o.senders_returned)));
     }
     if !o.runner_finished {
         out.push(("runner_task_still_alive".into(), "the association's runner task did not end".into()));
@@ -252,35 +287,65 @@ fn judge(ev: PeerEnd, o: &Obs) -> Vec<(String, String)> {
     out
 }
 
+impl Load {
+    pub fn name(&self) -> String {
+        let mut n = String::from(if self.small_window { "small" } else { "default" });
+        if self.senders > 1 {
+            n += &format!("+{}senders", self.senders);
+        }
+        if self.stall {
+            n += "+stalled";
+        }
+        n
+    }
+    fn from_name(n: &str) -> Load {
+        let senders = n.split('+').find_map(|p| p.strip_suffix("senders").and_then(|x| x.parse().ok())).unwrap_or(1);
+        Load { small_window: n.starts_with("small"), senders, stall: n.contains("stalled") }
+    }
+}
+
 pub fn sctp_part(rep: &mut crate::Report, thorough: bool, seed: u64) -> u64 {
     let mut n = 0u64;
-    let windows: &[bool] = if thorough { &[false, true] } else { &[false, true] };
-    for &small in windows {
+    let mut loads = vec![
+        Load { small_window: false, senders: 1, stall: false },
+        Load { small_window: true, senders: 1, stall: false },
+        Load { small_window: true, senders: 2, stall: true },
+    ];
+    if thorough {
+        loads.push(Load { small_window: true, senders: 1, stall: true });
+        loads.push(Load { small_window: true, senders: 2, stall: false });
+        loads.push(Load { small_window: true, senders: 3, stall: true });
+    }
+    for load in loads {
         for victim in [Side::A, Side::B] {
-            let base = run(PeerEnd::Abort, victim, usize::MAX, small, seed).unwrap_or_else(|| crate::machinery_failure("c17 sctp baseline hit the watchdog"));
+            let base = run(PeerEnd::Abort, victim, usize::MAX, load, seed).unwrap_or_else(|| crate::machinery_failure("c17 sctp baseline hit the watchdog"));
             let kmax = base.k_total.min(if thorough { 400 } else { 60 });
             if kmax < 5 {
                 crate::machinery_failure(&format!("c17 sctp: only {} datagram boundaries", base.k_total));
             }
             let mut cases = vec![];
-            for ev in [PeerEnd::Abort, PeerEnd::Shutdown, PeerEnd::ShutdownAck] {
+            for ev in [PeerEnd::Abort, PeerEnd::Shutdown, PeerEnd::ShutdownAck, PeerEnd::Silent] {
                 for k in 0..=kmax {
                     cases.push((ev, k));
                 }
             }
-            let results: Vec<((PeerEnd, usize), Option<Obs>)> = cases.par_iter().map(|c| (*c, run(c.0, victim, c.1, small, seed))).collect();
+            let results: Vec<((PeerEnd, usize), Option<Obs>)> = cases.par_iter().map(|c| (*c, run(c.0, victim, c.1, load, seed))).collect();
+            let mut all_parked = 0u64;
             for ((ev, k), o) in results {
                 n += 1;
-                let replay = json!({"part": "sctp", "event": format!("{ev:?}"), "victim": victim.name(), "k": k, "small_window": small});
+                let replay = json!({"part": "sctp", "event": format!("{ev:?}"), "victim": victim.name(), "k": k, "load": load.name()});
                 match o {
-                    None => rep.violation(crate::Violation { signature: format!("sctp-level;hang:execution;event=peer-{ev:?};window={}", if small { "small" } else { "default" }), detail: format!("watchdog at datagram boundary {k}"), replay }),
+                    None => rep.violation(crate::Violation { signature: format!("sctp-level;hang:execution;event=peer-{ev:?};load={}", load.name()), detail: format!("watchdog at datagram boundary {k}"), replay }),
                     Some(o) => {
                         if !o.injected {
                             continue;
                         }
+                        if o.senders_parked_at_event >= load.senders {
+                            all_parked += 1;
+                        }
                         for (kind, detail) in judge(ev, &o) {
                             rep.violation(crate::Violation {
-                                signature: format!("sctp-level;{kind};event=peer-{ev:?};window={}", if small { "small" } else { "default" }),
+                                signature: format!("sctp-level;{kind};event=peer-{ev:?};load={}", load.name()),
                                 detail: format!("{detail} (victim {}, after {k} association datagrams)", victim.name()),
                                 replay: replay.clone(),
                             });
@@ -288,7 +353,11 @@ pub fn sctp_part(rep: &mut crate::Report, thorough: bool, seed: u64) -> u64 {
                     }
                 }
             }
+            if load.stall && all_parked == 0 {
+                crate::machinery_failure(&format!("c17 sctp: load {} never had every sender parked in send_data at the event", load.name()));
+            }
             rep.add("sctp_level_datagram_boundaries", kmax as u64 + 1);
+            rep.add("sctp_level_cases_with_every_sender_parked", all_parked);
         }
     }
     rep.set("sctp_level_executions", n);
@@ -299,14 +368,18 @@ pub fn replay(r: &serde_json::Value, seed: u64) -> i32 {
     let ev = match r["event"].as_str().unwrap_or("") {
         "Abort" => PeerEnd::Abort,
         "Shutdown" => PeerEnd::Shutdown,
+        "Silent" => PeerEnd::Silent,
         _ => PeerEnd::ShutdownAck,
     };
     let victim = if r["victim"] == "A" { Side::A } else { Side::B };
     let k = r["k"].as_u64().unwrap_or(0) as usize;
-    let small = r["small_window"].as_bool().unwrap_or(false);
+    let load = match r["load"].as_str() {
+        Some(n) => Load::from_name(n),
+        None => Load { small_window: r["small_window"].as_bool().unwrap_or(false), senders: 1, stall: false },
+    };
     let mut bad = false;
     for round in 0..2 {
-        let o = run(ev, victim, k, small, seed);
+        let o = run(ev, victim, k, load, seed);
         let vs = o.as_ref().map(|o| judge(ev, o));
         println!("replay {round}: {o:?}\n  verdicts={vs:?}");
         bad |= vs.map_or(true, |v| !v.is_empty());
